@@ -196,7 +196,7 @@ func cbOrNone(op opRec) string {
 }
 
 func (s *session) doExec(idx int, op opRec, code int) opResult {
-	nonce := fmt.Sprintf("vq%d_%d", os.Getpid(), idx)
+	nonce := fmt.Sprintf("vq%d_%dz", os.Getpid(), idx)
 	var args []string
 	switch op.V {
 	case "run":
